@@ -25,7 +25,7 @@ import (
 func init() {
 	Register(&Spec{
 		ID: "C17", Level: "exploration",
-		Rule: "cases = chains with several feeds (max/min/avg, latest-history 1..5, 1..3 providers, thresholds 1..N, frequency/timeouts) whose providers answer with numbers of either sign and of magnitudes 1e-6..1e300 (valid, error, missing, foreign, duplicate answers), creators and strangers starting/pausing/editing (history shrunk and grown), one creator running out of funds; after every tx and end-block each feed's value list, state index and request context are read and compared with a reference that appends exactly one exact-rational aggregate (within the float64/8-decimal bound) stamped with the block time per completed batch that met its threshold; non-trivial = a batch completion, edit or state change whose relation was evaluated; distinct = distinct (aggregate, #responses vs threshold, magnitude class, sign mix, completion site, history op, actor); since round 13: valid answers lacking the feed's field (value not judged, count is)",
+		Rule: "cases = chains with several feeds (max/min/avg, latest-history 1..5, 1..3 providers, thresholds 1..N, frequency/timeouts) whose providers answer with numbers of either sign and of magnitudes 1e-6..1e300 (valid, error, missing, foreign, duplicate answers), creators and strangers starting/pausing/editing (history shrunk and grown), one creator running out of funds; after every tx and end-block each feed's value list, state index and request context are read and compared with a reference that appends exactly one exact-rational aggregate (within the float64/8-decimal bound) stamped with the block time per completed batch that met its threshold; non-trivial = a batch completion, edit or state change whose relation was evaluated; distinct = distinct (aggregate, #responses vs threshold, magnitude class, sign mix, completion site, history op, actor); since round 13: valid answers lacking the feed's field (value not judged, count is); since rounds 15-19: one transaction creating two feeds; the provider list replaced by a shorter one while a batch is open",
 		Assume: []string{"which batch completed when is read from the service module's request context (C08 covers the service module itself)", "responses are numeric JSON literals; tolerance = 0.5e-8 + 2^-52*(n+1)*mean|x| derived from float64 parsing and summation"},
 		Cases:  func(t string) int { return tierN(t, 16, 48) },
 		Run:    runOracle,
